@@ -13,7 +13,8 @@ class _Observable(_Observable, _STIXBase21):
 
     def __init__(self, **kwargs):
         super(_Observable, self).__init__(**kwargs)
-        if kwargs.get('id') is None:
+        if kwargs.get('id') in (None, []):
+            # (both mean the property was not given)
             # Specific to 2.1+ observables: generate a deterministic ID
             try:
                 id_ = self._generate_id()
